@@ -168,6 +168,8 @@ LINES = {
     "resp": {"jsonrpc": "2.0", "id": 1, "result": {"t": "\u00e9\u20ac\U0001f600\\n\u0085\u2028\u2029"}},
     "notif": {"jsonrpc": "2.0", "method": "notifications/message", "params": {"d": "\u00fc"}},
     "req": {"jsonrpc": "2.0", "id": "s-1", "method": "roots/list"},
+    # numbers beyond the fast decoder's native range, a float at the edge, deep nesting
+    "big": {"jsonrpc": "2.0", "id": 2 ** 63 + 1, "result": {"n": 2 ** 70, "u": 2 ** 64 - 1, "f": 1e308, "z": -0.0, "deep": [[[[{"k": None}]]]]}},
 }
 
 
